@@ -283,7 +283,7 @@ impl Property for P {
     }
     fn cases(tier: Tier) -> u64 {
         match tier {
-            Tier::Quick => 10_000,
+            Tier::Quick => 30_000,
             Tier::Thorough => 400_000,
         }
     }
